@@ -299,7 +299,8 @@ where
         MsgColor::Cyan => left.cyan(),
         MsgColor::Red => left.red(),
     };
-    println!("{left:>12} {right}");
+    // A progress message that cannot be delivered (closed pipe) must not abort the command
+    let _ = writeln!(std::io::stdout(), "{left:>12} {right}");
 }
 
 fn run(name: &PathBuf, debugger_opts: Option<debugger::Options>, minimal: bool) -> Result<()> {
